@@ -161,7 +161,9 @@ func (e *c11MqEnv) tick() string {
 		o = "t1"
 	}
 	for i, q := range e.qs {
-		if q.NumCommand() < before[i] {
+		// several commands of one queue can complete in one tick: the answer completes the running
+		// one, then processNewCommand starts a command without requests, which completes at once
+		for n := before[i] - q.NumCommand(); n > 0; n-- {
 			o += fmt.Sprintf("!q%d", i)
 			c := e.cmds[i][e.done[i]]
 			e.done[i]++
